@@ -42,6 +42,8 @@ def self_obj(mod, clsname, closed=False, **attrs):
     o.attrs['__classdef__'] = mod.cls(clsname)
     if closed:
         o.attrs['__closed__'] = True
+    else:
+        o.attrs['__open__'] = True
     return o
 
 
